@@ -52,10 +52,12 @@ def strategy(tier: str) -> Any:
     return strategy_case()
 
 
-def close(a: Optional[Fraction], b: Fraction, scale: Optional[Fraction] = None) -> bool:
+def close(a: Optional[Fraction], b: Fraction, scale: Optional[Fraction] = None, slack: Fraction = Fraction(0)) -> bool:
+    """Relative agreement, plus an absolute `slack` for cost that sits below rp2's 13-decimal resolution (R13): the unconsumed
+    part of a lot worth less than 1e-13 fiat compares equal to zero in rp2 and is left out of the unsold cost by design."""
     if a is None:
         return False
-    return abs(a - b) <= REL * max(abs(b), scale or 0, Fraction(1, 10**9))
+    return abs(a - b) <= REL * max(abs(b), scale or 0, Fraction(1, 10**9)) + slack
 
 
 def data_rows(rows: List[List[files.Cell]], header_rows: int, total_words: Tuple[str, ...]) -> List[Tuple[int, List[files.Cell]]]:
@@ -92,6 +94,9 @@ def evaluate(case: Dict[str, Any]) -> Outcome:
         label = cli.method_label(case.get("method"), case.get("schedule"), case["country"])
         path = os.path.join(outdir, f"{case.get('prefix') or ''}{label}_open_positions.ods")
         t = report_model.translator(lang)
+        if not os.path.exists(path):
+            out.fail("open_positions_not_written", f"rp2_{case['country']} exited 0 but {os.path.basename(path)} is not in the output directory ({result.files})")
+            return out
         sheets = files.read_ods(path)
         for name in (t("Asset"), t("Asset - Exchange")):
             if name not in sheets:
@@ -105,6 +110,7 @@ def evaluate(case: Dict[str, Any]) -> Outcome:
         expected_exchange_rows: Dict[Tuple[str, str, str], Fraction] = {}
         unrealised: Dict[str, Fraction] = {}
         dust_assets = set()
+        dust_slack: Dict[str, Fraction] = {}
         for asset in sorted(reference["assets"]):
             ref = reference["assets"][asset]
             txs = model.make_txs(rows_model[asset])
@@ -133,13 +139,14 @@ def evaluate(case: Dict[str, Any]) -> Outcome:
                 dust_assets.add(asset)
                 continue
             unrealised[asset] = u
+            dust_slack[asset] = len(lots) * Fraction(1, 10**13)
             total_balance = sum((b["final"] for b in positive), Fraction(0))
             holders: Dict[str, Fraction] = {}
             for b in positive:
                 holders[b["ho"]] = holders.get(b["ho"], Fraction(0)) + b["final"]
                 expected_exchange_rows[(asset, b["ho"], b["ex"])] = b["final"]
             for holder, balance in holders.items():
-                expected_asset_rows[(asset, holder)] = {"balance": balance, "unit": u / total_balance, "cost": balance * u / total_balance}
+                expected_asset_rows[(asset, holder)] = {"balance": balance, "unit": u / total_balance, "cost": balance * u / total_balance, "unit_slack": dust_slack[asset] / total_balance}
             if len(holders) >= 2 and any(0 < consumed.get(lot.row, Fraction(0)) < lot.crypto_in for lot in lots):
                 out.nontrivial = True
         total_u = sum(unrealised.values(), Fraction(0))
@@ -167,19 +174,19 @@ def evaluate(case: Dict[str, Any]) -> Outcome:
             if not num_equal(cellv(row, 2), exp["balance"]):
                 out.fail("open_position_balance", f"{where}: crypto balance {cellv(row, 2)!r}, computed balance {exp['balance']}")
                 return out
-            if not close(to_fraction(cellv(row, 3)), exp["unit"]):
+            if not close(to_fraction(cellv(row, 3)), exp["unit"], slack=exp["unit_slack"]):
                 out.fail("open_position_unit_cost", f"{where}: per-unit cost {cellv(row, 3)!r}, unrealised cost / total balance = {float(exp['unit'])!r}")
                 return out
-            if not close(to_fraction(cellv(row, 4)), exp["cost"], total_u):
+            if not close(to_fraction(cellv(row, 4)), exp["cost"], total_u, slack=dust_slack[key[0]]):
                 out.fail("open_position_cost_basis", f"{where}: cost basis {cellv(row, 4)!r}, expected {float(exp['cost'])!r}")
                 return out
-            if not close(to_fraction(cellv(row, 5)), exp["cost"] / total_u, Fraction(1)):
+            if not close(to_fraction(cellv(row, 5)), exp["cost"] / total_u, Fraction(1), slack=sum(dust_slack.values(), Fraction(0)) / total_u):
                 out.fail("open_position_weight", f"{where}: cost-basis weight {cellv(row, 5)!r}, expected {float(exp['cost'] / total_u)!r}")
                 return out
             weight_sum += to_fraction(cellv(row, 5))
             per_asset_cost[key[0]] = per_asset_cost.get(key[0], Fraction(0)) + to_fraction(cellv(row, 4))
         for asset, u in unrealised.items():
-            if not close(per_asset_cost.get(asset), u, total_u):
+            if not close(per_asset_cost.get(asset), u, total_u, slack=dust_slack[asset]):
                 out.fail("asset_cost_does_not_add_up", f"{asset}: cost bases of its rows add to {float(per_asset_cost.get(asset, 0))!r}, cost of the unconsumed lot parts is {float(u)!r}")
                 return out
         if expected_asset_rows and abs(weight_sum - 1) > Fraction(1, 10**10):
@@ -206,13 +213,14 @@ def evaluate(case: Dict[str, Any]) -> Outcome:
             row_i, row = shown_ex[key3]
             where = f"sheet '{t('Asset - Exchange')}' row {row_i + 1} {key3}"
             unit = expected_asset_rows[(key3[0], key3[1])]["unit"]
+            unit_slack = expected_asset_rows[(key3[0], key3[1])]["unit_slack"]
             if not num_equal(cellv(row, 3), balance):
                 out.fail("open_position_balance", f"{where}: crypto balance {cellv(row, 3)!r}, computed balance {balance}")
                 return out
-            if not close(to_fraction(cellv(row, 4)), unit):
+            if not close(to_fraction(cellv(row, 4)), unit, slack=unit_slack):
                 out.fail("open_position_unit_cost", f"{where}: per-unit cost {cellv(row, 4)!r}, expected {float(unit)!r}")
                 return out
-            if not close(to_fraction(cellv(row, 5)), balance * unit, total_u):
+            if not close(to_fraction(cellv(row, 5)), balance * unit, total_u, slack=dust_slack[key3[0]]):
                 out.fail("open_position_cost_basis", f"{where}: cost basis {cellv(row, 5)!r}, expected {float(balance * unit)!r}")
                 return out
             weight_sum += to_fraction(cellv(row, 6)) or Fraction(0)
